@@ -1,17 +1,21 @@
 #!/usr/bin/env python3
 """Developer helper: run the proof (or a finite scope) of the cases of one contract module whose name contains a substring.
-Usage: python3-vt tools/run_case.py <module> <substring> [scope]"""
+Usage: python3-vt tools/run_case.py <module> <substring> [scope]   (sharded cases are spread over 16 processes)"""
 import importlib, json, sys, time, os
+import multiprocessing as mp
 sys.path.insert(0, os.path.dirname(os.path.dirname(os.path.abspath(__file__))))
-from pyvc.check import _worker
+from pyvc.check import sharded_map
 mod, sub = sys.argv[1], sys.argv[2]
 scope = int(sys.argv[3]) if len(sys.argv) > 3 else None
 m = importlib.import_module("contracts." + mod)
-for c in m.CASES:
-    if sub in c.name and c.proved:
-        t = time.time()
-        r = _worker(("contracts." + mod, c.name, 0, None, scope))
-        print("==", c.name, f"{time.time()-t:.1f}s paths={r['paths']} error={r['error']}")
-        print("   covers", r["covers"])
-        for v in r["verdicts"]:
-            print("  ", v["status"], v["name"], v["paths"], v["seconds"], (v["detail"][:200] if v["status"] != "discharged" else ""), str(v["prims"])[:400] if v["status"] == "refuted" else "")
+jobs = [("contracts." + mod, c.name, 0, None, scope) for c in m.CASES if sub in c.name and c.proved]
+t = time.time()
+with mp.Pool(16) as pool:
+    res = sharded_map(pool, jobs)
+print(f"total wall {time.time()-t:.1f}s")
+for r in res:
+    print("==", r["case"], f"{r['seconds']}s(slowest shard) shards={r.get('shards')} paths={r['paths']} error={r['error']}")
+    print("   covers", r["covers"])
+    for v in r["verdicts"]:
+        print("  ", v["status"], v["name"], v["paths"], v["seconds"], (v["detail"][:200] if v["status"] != "discharged" else ""),
+              str(v["prims"])[:400] if v["status"] == "refuted" else "")
